@@ -141,11 +141,44 @@ for W_, T in [(32, 'uint32_t'), (64, 'uint64_t')]:
             says='%s is the identity on this (little-endian) host, so le->host after host->le is the identity' % fn))
 
 
+
+# ---- partFromFile: the section windows a partial reader maps (S-slice: the offset arithmetic between fromMem and the NUMA code) ----
+PFP = '''
+uint64_t g_off[3], g_lenv[3]; unsigned g_loads;     /* ghost: (offset, length) of the loadFromOffset calls, in order */
+static inline void* loadFromOffset_rec(uint64_t offset, uint64_t length) { if (g_loads < 3) { g_off[g_loads] = offset; g_lenv[g_loads] = length; } g_loads++; return (void*)0; }
+'''
+UNITS.append(Unit(name='rawBlockSize_spec', kind='assumed', proto='size_t rawBlockSize_spec(size_t numNodes, size_t numEdges, size_t sizeofEdgeData, int graphVersion)',
+                  contract='__CPROVER_requires(SZ_OK(numNodes, numEdges, sizeofEdgeData) && (graphVersion == 1 || graphVersion == 2))\n__CPROVER_ensures(__CPROVER_return_value == TOTAL(numNodes, numEdges, sizeofEdgeData, graphVersion))\n__CPROVER_assigns()',
+                  prelude=[SPEC], says='the contract proved by the unit rawBlockSize'))
+UNITS.append(Unit(
+    name='FileGraph_partFromFile_windows', src=FG_C, anchor=r'void FileGraph::partFromFile\(const std::string& filename, NodeRange nrange,',
+    proto='void FileGraph_partFromFile_windows(struct FileGraph* self, uint64_t nfirst, uint64_t nlast, uint64_t efirst, uint64_t elast)',
+    contract="""__CPROVER_requires(__CPROVER_is_fresh(self, sizeof(*self)) && (self->graphVersion == 1 || self->graphVersion == 2) && SZ_OK(self->numNodes, self->numEdges, self->sizeofEdge) && g_loads == 0)
+/* state after fromMem(base, *nrange.first, *erange.first, 0): whole-graph metadata, offsets of the part */
+__CPROVER_requires(nfirst <= nlast && nlast <= self->numNodes && efirst <= elast && elast <= self->numEdges && self->nodeOffset == nfirst && self->edgeOffset == efirst && g_n0 == self->numNodes && g_m0 == self->numEdges && g_s0 == self->sizeofEdge && (g_s0 == 0 || g_s0 == 1 || g_s0 == 4 || g_s0 == 8 || g_s0 == 16))
+/* the three windows: index entries / destinations / edge data of exactly this part, at the documented positions of the WHOLE file */
+__CPROVER_ensures(g_loads == (g_s0 ? 3u : 2u))
+__CPROVER_ensures(g_off[0] == IDXOFF + 8 * nfirst && g_lenv[0] == 8 * (nlast - nfirst))
+__CPROVER_ensures(g_off[1] == DSTOFF(g_n0) + W(self->graphVersion) * efirst && g_lenv[1] == W(self->graphVersion) * (elast - efirst))
+__CPROVER_ensures(g_s0 != 0 ==> (g_off[2] == DATAOFF(g_n0, g_m0, self->graphVersion) + g_s0 * efirst && g_lenv[2] == g_s0 * (elast - efirst)))
+__CPROVER_ensures(self->numNodes == nlast - nfirst && self->numEdges == elast - efirst)
+__CPROVER_assigns(__CPROVER_object_whole(self), __CPROVER_object_whole(g_off), __CPROVER_object_whole(g_lenv), g_loads)""",
+    prelude=[SPEC, PFP, 'uint64_t g_n0, g_m0, g_s0;   /* ghost: whole-graph node count, edge count, edge-data width */\n'], uses=['rawBlockSize_spec'],
+    lower=[rx(r'\A.*?(?=uint64_t partNumNodes)', 'size_t headerSize = 4 * sizeof(uint64_t);\n', 1, 1, flags=re.S),
+           rx(r'\n\s*if \(numaMap\) \{.*\Z', '\n', 1, 1, flags=re.S),
+           rx(r'std::distance\(nrange\.first, nrange\.second\)', '(nlast - nfirst)', 1, 1), rx(r'std::distance\(erange\.first, erange\.second\)', '(elast - efirst)', 1, 1),
+           rx(r'offset_t offset', 'uint64_t offset', 1, 1), rx(r'loadFromOffset\(fd, offset, length, mappings\)', 'loadFromOffset_rec(offset, length)', 3), casts(0),
+           rx(r'(?<![\w.>])rawBlockSize\(', 'rawBlockSize_spec(', 1, 1), members(FM_MEM, minimum=5)] + DIE,
+    no_flags=['--conversion-check'], timeout=900, inst='edge-data widths 0, 1, 4, 8, 16 bytes (a symbolic width times a symbolic offset is out of solver reach)',
+    says='partFromFile: the index, destination and edge-data windows that are mapped for a part are exactly the part\'s entries at the documented positions of the whole file (both versions, any edge-data width, odd edge counts), and the metadata is reduced to the part',
+    trusted=['S-slice: open/mmap of the header and the NUMA page-interleaving tail are cut; loadFromOffset records (offset, length)', 'rawBlockSize replaced by its proved contract']))
+
 EXPLANATION = ('rawBlockSize, FileGraph::fromMem (the reader behind fromFile/fromArrays/partFromFile), FileGraphWriter::phase1, the three seek positions of the offline reader, '
                'the two offsets of the offline writer and the Endian.h helpers are extracted from /repo, lowered to C and proved to compute the section offsets of ONE spec of the documented '
                'binary layout, for both format versions, every edge-data width <= 1024 and odd as well as even edge counts (sizes <= 2^40): writer offsets = reader offsets, so every section '
                'the writer fills is the section the reader decodes.')
-NOT_DECIDED = ('text parsers and the transforming conversions of graph-convert (string/stream code); actual I/O; FileGraph::fromArrays / toFile write loops; partFromFile; '
+NOT_DECIDED = ('partFromFile beyond its window arithmetic (open/mmap, NUMA interleaving); ' +
+               'text parsers and the transforming conversions of graph-convert (string/stream code); actual I/O; FileGraph::fromArrays / toFile write loops; partFromFile; '
                'OCFileGraph::load; BufferedGraph; LC_CSR_Graph::readGraphFromGRFile; FileGraphWriter::phase2 prefix sum; big-endian hosts.')
 ASSUMPTIONS = ['host is little-endian (convert_le*toh / convert_htole* proved to be the identity for this configuration and used as such)',
                'mmap returns a fresh object of the requested size (assumed contract gv_mmap); GALOIS_DIE terminates',
